@@ -36,14 +36,16 @@ pub struct SrvCfg {
     pub ipv6: bool,
     /// with `distinct`: the send directory is NOT given explicitly (`-d <srv> -rd <up>`), so it must fall back to -d
     pub rd_only: bool,
+    /// the server listens on `::` (dual-stack) while the clients speak IPv4 (they appear as ::ffff:127.0.0.1)
+    pub dual: bool,
 }
 
 impl SrvCfg {
     pub fn basic() -> SrvCfg {
-        SrvCfg { single: false, read_only: false, overwrite: false, keep: false, distinct: false, dup: 0, ipv6: false, rd_only: false }
+        SrvCfg { single: false, read_only: false, overwrite: false, keep: false, distinct: false, dup: 0, ipv6: false, rd_only: false, dual: false }
     }
     pub fn key(&self) -> String {
-        format!("s{}r{}o{}k{}d{}n{}v{}f{}", self.single as u8, self.read_only as u8, self.overwrite as u8, self.keep as u8, self.distinct as u8, self.dup, self.ipv6 as u8, self.rd_only as u8)
+        format!("s{}r{}o{}k{}d{}n{}v{}f{}u{}", self.single as u8, self.read_only as u8, self.overwrite as u8, self.keep as u8, self.distinct as u8, self.dup, self.ipv6 as u8, self.rd_only as u8, self.dual as u8)
     }
     pub fn brief(&self) -> String {
         let mut v = vec![];
@@ -65,10 +67,13 @@ impl SrvCfg {
         if self.ipv6 {
             s.push_str(",ipv6");
         }
+        if self.dual {
+            s.push_str(",listening on :: with IPv4 clients");
+        }
         s
     }
     pub fn to_json(&self) -> serde_json::Value {
-        serde_json::json!({"single": self.single, "read_only": self.read_only, "overwrite": self.overwrite, "keep": self.keep, "distinct": self.distinct, "dup": self.dup, "ipv6": self.ipv6, "rd_only": self.rd_only})
+        serde_json::json!({"single": self.single, "read_only": self.read_only, "overwrite": self.overwrite, "keep": self.keep, "distinct": self.distinct, "dup": self.dup, "ipv6": self.ipv6, "rd_only": self.rd_only, "dual": self.dual})
     }
     pub fn from_json(v: &serde_json::Value) -> SrvCfg {
         SrvCfg {
@@ -80,10 +85,11 @@ impl SrvCfg {
             dup: v["dup"].as_u64().unwrap_or(0) as u8,
             ipv6: v["ipv6"].as_bool().unwrap_or(false),
             rd_only: v["rd_only"].as_bool().unwrap_or(false),
+            dual: v["dual"].as_bool().unwrap_or(false),
         }
     }
     pub fn args(&self, port: u16, root: &str) -> Vec<String> {
-        let mut a: Vec<String> = vec!["tftpd".into(), "-i".into(), if self.ipv6 { "::1".into() } else { "127.0.0.1".into() }, "-p".into(), port.to_string()];
+        let mut a: Vec<String> = vec!["tftpd".into(), "-i".into(), if self.dual { "::".into() } else if self.ipv6 { "::1".into() } else { "127.0.0.1".into() }, "-p".into(), port.to_string()];
         if self.distinct && self.rd_only {
             a.extend(["-d".into(), format!("{root}/srv"), "-rd".into(), format!("{root}/up")]);
         } else if self.distinct {
@@ -134,7 +140,7 @@ pub fn start_server(cfg: &SrvCfg) -> Result<Srv, String> {
     std::fs::create_dir_all(format!("{root}/srv")).map_err(|e| e.to_string())?;
     std::fs::create_dir_all(format!("{root}/up")).map_err(|e| e.to_string())?;
     for _attempt in 0..20 {
-        let port = free_port(cfg.ipv6);
+        let port = free_port(cfg.ipv6 || cfg.dual);
         let args = cfg.args(port, &root);
         let config = Config::new(args.into_iter()).map_err(|e| format!("Config::new: {e}"))?;
         match Server::new(&config) {
